@@ -173,7 +173,9 @@ impl From<&PcapPacket> for Vec<u8> {
     fn from(pkt: &PcapPacket) -> Self {
         let header = pkt.header.borrow().clone();
         let mut bytes: Vec<u8> = (&header).into();
-        if let Some(inner) = pkt.inner.borrow().clone() {
+        // an error object stands for a layer that could not be parsed: its bytes are still the raw ones
+        let inner = pkt.inner.borrow().clone();
+        if let Some(inner) = inner.filter(|i| !matches!(i.as_ref(), Object::Err(_))) {
             let data: Vec<u8> = inner.as_ref().into();
             bytes.extend_from_slice(&data);
         } else {
